@@ -21,6 +21,8 @@ pub mod c02_cms;
 pub mod c03;
 pub mod c03_gen;
 pub mod c03_ip;
+pub mod c03_long;
+pub mod c03_serde;
 pub mod c04;
 pub mod c05;
 pub mod c06;
